@@ -280,3 +280,13 @@ Print Assumptions C10_cost_ParseIndexFile.
 Print Assumptions C10_cost_ParseRelMapFile.
 Print Assumptions C10_cost_ReadTOASTTable.
 Print Assumptions C10_cost_ParsePGAuthID.
+(* the decompressors' output is linear in the INPUT, whatever raw size the (hostile) pointer claims: a pglz match item
+   (2-3 input bytes) yields at most 18 + 255 = 273 bytes, an LZ4 sequence at most 255 bytes per input byte *)
+Theorem C10_cost_decompressPGLZ : forall data rawSize out,
+  PG.C08.Model.decompressPGLZ data rawSize = Ok (PG.C08.Model.DOk out) -> blen out <= 273 * len data.
+Proof. exact PG.C10.Cost2.decompressPGLZ_output_linear. Qed.
+Theorem C10_cost_decompressLZ4 : forall data rawSize out,
+  PG.C08.Model.decompressLZ4 data rawSize = Ok (PG.C08.Model.DOk out) -> blen out <= 255 * len data.
+Proof. exact PG.C10.Cost2.decompressLZ4_output_linear. Qed.
+Print Assumptions C10_cost_decompressPGLZ.
+Print Assumptions C10_cost_decompressLZ4.
